@@ -89,7 +89,22 @@ def workdir_for(tag):
     return d
 
 
-def run_tlc(workdir, module, *, cfg=None, workers=None, dump=False, coverage=True, simulate=None,
+def run_tlc(workdir, module, **kw):
+    """run TLC; a crash that is not a verdict (JVM / IO hiccup) is retried once before it counts as machinery failure"""
+    try:
+        return _run_tlc(workdir, module, **kw)
+    except MachineryError as e:
+        if "timed out" in str(e) or "Error:" in str(e) or "Parse Error" in str(e) or "Semantic errors" in str(e):
+            raise
+        try:
+            with open(os.path.join(VERIF, "evidence", "machinery.log"), "a") as f:
+                f.write("retrying %s after: %s\n" % (module, str(e)[:2000]))
+        except OSError:
+            pass
+        return _run_tlc(workdir, module, **kw)
+
+
+def _run_tlc(workdir, module, *, cfg=None, workers=None, dump=False, coverage=True, simulate=None,
             depth=None, seed=None, timeout=1500, deadlock=True, env=None, java_opts=(), extra=(),
             heap="3g", young="512m"):
     """Run TLC on `module` (in workdir).  Returns TLCResult.  Raises MachineryError on crashes."""
